@@ -271,7 +271,7 @@ def main():
                     {'name': 'tlc-extra-X02', 'path': '/verif/spec/Qryn.tla', 'serves_properties': ['C01', 'C04', 'C06', 'C16', 'C17'],
                      'kind_free_text': 'extra check beyond the list: end-to-end composition, acknowledged data is readable through every endpoint of its signal (python3 tools/check.py X02 quick|thorough); part of the thorough tier of C04'},
                     {'name': 'tlc-extra-X06', 'path': '/verif/spec/query/LabelIndex.tla', 'serves_properties': ['C13', 'C15', 'C17'],
-                     'kind_free_text': 'extra check beyond the list: content of the Loki / Prometheus label, label-values and series endpoints (python3 tools/check.py X06 quick|thorough)'},
+                     'kind_free_text': 'extra check beyond the list: content of the Loki / Prometheus label, label-values and series endpoints (python3 tools/check.py X06 quick|thorough); part of the thorough tier of C17'},
                     {'name': 'tlc-extra-X05', 'path': '/verif/spec/query/ProfSeries.tla', 'serves_properties': ['C13', 'C16', 'C17'],
                      'kind_free_text': 'extra check beyond the list: Pyroscope SelectSeries / SelectMergeProfile / ProfileTypes / label endpoints / stats (python3 tools/check.py X05 quick|thorough); part of the thorough tier of C16'},
                     {'name': 'tlc-extra-X04', 'path': '/verif/spec/ingest/BulkIngest.tla', 'serves_properties': ['C03', 'C04', 'C05'],
